@@ -494,6 +494,39 @@ pub fn special_cases() -> Vec<(String, Vec<u8>)> {
         }
         v.push((name.to_string(), patch(&bytes, from.as_bytes(), to.as_bytes())));
     }
+    // predictor geometry over stream data that does not end on a row boundary (content stream and image)
+    {
+        use crate::pdfgen::filters as pf;
+        for pred in [2i64, 10, 12, 15] {
+            for colors in [1usize, 3] {
+                for bpc in [1usize, 2, 4, 8, 16] {
+                    for columns in [1usize, 5] {
+                        let rb = pf::row_bytes(colors, bpc, columns);
+                        let prow = if pred >= 10 { rb + 1 } else { rb };
+                        for (cname, len) in [("rows", 3 * prow), ("one-short", 3 * prow - 1), ("one-into-last-row", 2 * prow + 1)] {
+                            if cname == "one-into-last-row" && prow == 2 {
+                                continue;
+                            }
+                            let plain: Vec<u8> = (0..len).map(|i| if pred >= 10 && i % prow == 0 { (i / prow % 5) as u8 } else { (i * 37 + 11) as u8 }).collect();
+                            let parms = Val::dict(vec![("Predictor", Val::Int(pred)), ("Colors", Val::Int(colors as i64)), ("BitsPerComponent", Val::Int(bpc as i64)), ("Columns", Val::Int(columns as i64))]);
+                            for lzw in [false, true] {
+                                let enc = if lzw { pf::lzw_encode(&plain, true, 0) } else { pf::flate_encode(&plain, pf::FlateStyle::ZlibDefault) };
+                                let filter = Val::name(if lzw { "LZWDecode" } else { "FlateDecode" });
+                                let mut fb = FileBuilder::new(b"");
+                                fb.add(1, 0, &cat);
+                                fb.add(2, 0, &Val::dict(vec![("Type", Val::name("Pages")), ("Kids", Val::Array(vec![Val::r(3)])), ("Count", Val::Int(1)), ("MediaBox", Val::ints(&[0, 0, 9, 9]))]));
+                                fb.add(3, 0, &Val::dict(vec![("Type", Val::name("Page")), ("Parent", Val::r(2)), ("Resources", Val::dict(vec![("XObject", Val::dict(vec![("Im", Val::r(5))]))])), ("Contents", Val::r(4))]));
+                                fb.add(4, 0, &Val::stream(vec![("Filter", filter.clone()), ("DecodeParms", parms.clone())], enc.clone()));
+                                fb.add(5, 0, &Val::stream(vec![("Type", Val::name("XObject")), ("Subtype", Val::name("Image")), ("Width", Val::Int(columns as i64)), ("Height", Val::Int(3)), ("ColorSpace", Val::name(if colors == 1 { "DeviceGray" } else { "DeviceRGB" })), ("BitsPerComponent", Val::Int(bpc as i64)), ("Filter", filter), ("DecodeParms", parms.clone())], enc));
+                                fb.finish_table(&[("Root", Val::r(1))], Split::Runs);
+                                v.push((format!("predictor-{}-colors-{}-bpc-{}-columns-{}-{}-{}", pred, colors, bpc, columns, cname, if lzw { "lzw" } else { "flate" }), fb.bytes()));
+                            }
+                        }
+                    }
+                }
+            }
+        }
+    }
     // PostScript calculator operands
     for (name, prog) in [("ps-roll-negative", "{ 1 2 3 3 -1 roll }"), ("ps-roll-huge", "{ 1 2 3 3 2147483647 roll }"), ("ps-roll-n-huge", "{ 1 2 2147483647 1 roll }"), ("ps-index-huge", "{ 1 2147483647 index }"), ("ps-index-negative", "{ 1 -1 index }"), ("ps-pop-empty", "{ pop pop pop }"), ("ps-deep", "{ dup dup dup dup dup dup dup dup dup dup dup dup dup dup dup dup dup dup dup dup }"), ("ps-unbalanced", "{ { 1 }"), ("ps-empty", "")] {
         let mut objs = hostile_objects();
